@@ -15,18 +15,12 @@ import (
 	"errors"
 	"strings"
 
-	sscrypt "github.com/elithrar/simple-scrypt"
 	"github.com/restic/restic/internal/repository/crypto"
 	"golang.org/x/crypto/poly1305"
 	"golang.org/x/crypto/scrypt"
 )
 
 var _ = verifRegister("C05", streamC05)
-var _ = verifRegisterFacts(func() map[string]int64 {
-	m := crypto.VerifFactsC05()
-	m["crypto_sscryptDKLen"] = int64(sscrypt.DefaultParams.DKLen)
-	return m
-})
 
 type c05Key struct{ K, R, Enc []byte }
 
